@@ -40,7 +40,9 @@ func ruleInclusiveLoops(c *Ctx, rule string) {
 		c.ob(rule, fn, "range walk terminates for ranges ending at 255.255.255.255", nil, len(loops) == 0 && calls > 0,
 			fmt.Sprintf("no `counter <= last` continuation on the uint32 counter (%d found); the callback is invoked in the loop (%d call sites)", len(loops), calls))
 		// the exit test compares the counter with the last address for equality before incrementing
-		eq := guardEdges(fn, predEq(func(v ssa.Value) bool { return dependsOn(v, func(x ssa.Value) bool { return isResultOf(x, 0, netsPkg+".IPToInt") }) },
+		eq := guardEdges(fn, predEq(func(v ssa.Value) bool {
+			return dependsOn(v, func(x ssa.Value) bool { return isResultOf(x, 0, netsPkg+".IPToInt") })
+		},
 			func(v ssa.Value) bool { return isResultOf(v, 0, netsPkg+".IPToInt") }))
 		inc := 0
 		okOrder := true
